@@ -241,8 +241,10 @@ def _cluster(op: Dict[str, Any], sim: Sim, world) -> None:
     if not hasattr(world, "_bc_pair"):
         world._bc_pair = (BatchCluster(), BatchCluster())
     bc1, bc2 = world._bc_pair
+    sim.exotic = "nan_signature" if (akey and op.get("nan_every")) else None    # may be refused cleanly
     one, _ = bc1.fit(mk(), [], rule_key="gml", attribute_key=akey, batch_size=None)
     bat, _ = bc2.fit(mk(), [], rule_key="gml", attribute_key=akey, batch_size=op["batch_size"])
+    sim.exotic = None
     if op["batch_size"] < len(specs):
         sim.probe("cluster_batched")
     if akey and op.get("nan_every"):
